@@ -1,131 +1,51 @@
-import Std.Data.HashMap
 import Percival.Driver.Loop
 import Percival.Driver.Dsmon
-import Percival.Spec.PQ
-import Percival.Spec.Reg
+import Percival.Driver.Af
+import Percival.Spec.AfMon
 /-!
-`pmodel afmon`: the C14 monitor for harness/h_allocfail.c.  Judges the implementation's L1 answers: a failure
-is admitted only together with a refused allocation request and must leave the ideal object (heap multiset,
-event registry) unchanged; operations that cannot fail must succeed; callbacks run exactly as the ideal
-registry says; at `end` no library block is left.  Driver code: parses and calls `Spec.PQ` / `Spec.Reg`.
+`pmodel afmon`: the C14 monitor for harness/h_allocfail.c.  Thin by construction: the operation line and the part
+of the implementation's answer before ` | ` are parsed into `Spec.AfMon.Op` / `Ans`, `Spec.AfMon.monStep` judges
+them on the ideal heap multiset and the ideal event registry, and the verdict is printed.
 -/
 namespace Percival.Driver.Afmon
-open Percival.Driver Percival.Spec Percival.Spec.Reg
+open Percival.Driver Percival.Spec.AfMon
 open Percival.Driver.Dsmon (field natField)
 
-structure S where
-  heap : Option (List Nat) := none
-  keys : Std.HashMap Nat Int := {}
-  reg : Reg := {}
-  now : Int := 1000000
-
-def keyFn (k : Std.HashMap Nat Int) (e : Nat) : Int := k.getD e 0
+def parseHead : String → Head
+  | "ok" => .ok | "fail" => .fail | "skip" => .skip | "end" => .end_ | "exists" => .exists_ | "noent" => .noent
+  | _ => .other
 
 def parseIds (s : String) : Option (List Nat) :=
   if s = "-" then some [] else (s.splitOn ",").mapM String.toNat?
 
-def step (s : S) (op ans : List String) : S × String :=
-  let rfn := (natField ans "rf").getD 0
-  let st := ans.head?.getD ""
-  match op with
-  | ["failat", _] | ["failfrom", _] | ["failoff"] | ["clock", _] =>
-    match op with
-    | ["clock", us] => ({ s with now := s.now + us.toInt! }, if ans = ["ok"] then "ok" else "bad answer")
-    | _ => (s, if ans = ["ok"] then "ok" else "bad answer")
-  | ["end"] =>
-    if ans = ["end", "live=0", "leaked=0"] then ({}, "ok")
-    else (s, "bad memory still allocated after cancelling every registration and running the exit handlers")
-  -- ---------------------------------------------------------------- pointer heap
-  | ["h_init"] =>
-    if st = "ok" then ({ s with heap := some [] }, "ok")
-    else if st = "fail" ∧ rfn > 0 then ({ s with heap := none }, "ok")
-    else (s, "bad ptrheap_init failed although no allocation was refused")
-  | ["h_add", id, k] =>
-    match s.heap with
-    | none => (s, if ans = ["skip"] then "ok" else "bad answer without a heap")
-    | some live =>
-      let e := id.toNat!
-      if e ≥ 4096 || live.contains e then (s, if ans = ["skip"] then "ok" else "bad must be skipped") else
-      let keys := s.keys.insert e k.toInt!
-      if st = "ok" then ({ s with heap := some (e :: live), keys := keys }, "ok")
-      else if st = "fail" ∧ rfn > 0 then ({ s with keys := keys }, "ok")     -- heap unchanged
-      else (s, "bad ptrheap_add failed although no allocation was refused")
-  | ["h_min"] =>
-    match s.heap with
-    | none => (s, if ans = ["skip"] then "ok" else "bad answer without a heap")
-    | some live =>
-      let r := match field ans "id" with
-        | some "none" => some none
-        | some x => x.toNat?.map some
-        | none => none
-      match r with
-      | some r => (s, if st = "ok" ∧ PQ.getminOk (keyFn s.keys) live r then "ok" else "bad getmin is not a least element of what was added and not deleted")
-      | none => (s, "bad unparsable answer")
-  | ["h_delmin"] =>
-    match s.heap with
-    | none => (s, if ans = ["skip"] then "ok" else "bad answer without a heap")
-    | some live =>
-      if ans = ["skip"] then (s, if live.isEmpty then "ok" else "bad deletemin skipped") else
-      match natField ans "id" with
-      | some e =>
-        if st = "ok" ∧ PQ.isLeast (keyFn s.keys) live e then ({ s with heap := some (live.erase e) }, "ok")
-        else (s, "bad deletemin must succeed (it cannot fail) and remove a least element")
-      | none => (s, "bad unparsable answer")
-  | ["h_free"] =>
-    match s.heap with
-    | none => (s, if ans = ["skip"] then "ok" else "bad answer without a heap")
-    | some _ => ({ s with heap := none }, if st = "ok" then "ok" else "bad answer")
-  -- ---------------------------------------------------------------- events
-  | ["reg_imm", id, prio] =>
-    let i := id.toNat!
-    if i ≥ 4096 || s.reg.hasId i then (s, if ans = ["skip"] then "ok" else "bad must be skipped") else
-    if st = "ok" then
-      ({ s with reg := { s.reg with imm := s.reg.imm.modify prio.toNat! (· ++ [i]) } }, "ok")
-    else if st = "fail" ∧ rfn > 0 then (s, "ok")
-    else (s, "bad registration failed although no allocation was refused")
-  | ["cancel_imm", id] =>
-    let i := id.toNat!
-    if !(s.reg.imm.any (·.contains i)) then (s, if ans = ["skip"] then "ok" else "bad must be skipped") else
-    if st = "ok" then ({ s with reg := s.reg.remove [i] }, "ok") else (s, "bad cancel cannot fail")
-  | ["reg_tm", id, us] =>
-    let i := id.toNat!
-    if i ≥ 4096 || s.reg.hasId i then (s, if ans = ["skip"] then "ok" else "bad must be skipped") else
-    if st = "ok" then ({ s with reg := { s.reg with timers := (i, s.now + us.toInt!) :: s.reg.timers } }, "ok")
-    else if st = "fail" ∧ rfn > 0 then (s, "ok")
-    else (s, "bad registration failed although no allocation was refused")
-  | ["cancel_tm", id] =>
-    let i := id.toNat!
-    if !(s.reg.timers.any (·.1 == i)) then (s, if ans = ["skip"] then "ok" else "bad must be skipped") else
-    if st = "ok" then ({ s with reg := s.reg.remove [i] }, "ok") else (s, "bad cancel cannot fail")
-  | ["reg_net", id, fd, w] =>
-    let i := id.toNat!; let sfd := fd.toNat!; let isW := w.toNat! != 0
-    if i ≥ 4096 || sfd ≥ 64 then (s, if ans = ["skip"] then "ok" else "bad must be skipped") else
-    match s.reg.netSlot sfd isW with
-    | some _ =>
-      -- already registered: EEXIST (or a refused request on the way), and nothing changes
-      (s, if st = "exists" ∨ (st = "fail" ∧ rfn > 0) then "ok" else "bad a second registration for the same socket/op must fail")
-    | none =>
-      if st = "ok" then ({ s with reg := { s.reg with net := (sfd, isW, i) :: s.reg.net } }, "ok")
-      else if st = "fail" ∧ rfn > 0 then (s, "ok")
-      else (s, "bad registration failed although no allocation was refused")
-  | ["cancel_net", fd, w] =>
-    let sfd := fd.toNat!; let isW := w.toNat! != 0
-    if sfd ≥ 64 then (s, if ans = ["skip"] then "ok" else "bad must be skipped") else
-    match s.reg.netSlot sfd isW with
-    | some _ =>
-      if st = "ok" then
-        ({ s with reg := { s.reg with net := s.reg.net.filter (fun e => !(e.1 == sfd && e.2.1 == isW)) } }, "ok")
-      else (s, "bad cancelling an existing registration cannot fail")
-    | none => (s, if st = "noent" ∨ (st = "fail" ∧ rfn > 0) then "ok" else "bad cancel of nothing must report ENOENT")
-  | ["run"] =>
-    match (field ans "ran").bind parseIds with
-    | some ran =>
-      if (st = "ok" ∨ st = "fail") ∧ runOk s.reg s.now (st = "ok") (rfn > 0) ran then
-        ({ s with reg := s.reg.remove ran }, "ok")
-      else (s, "bad the event loop ran a callback that is not registered/due, missed one, or failed without a refused allocation")
-    | none => (s, "bad unparsable answer")
-  | _ => (s, "bad op")
+/-- the number of the word `key=<number>` -/
+def numOf (key : String) (tok : Option String) : Option Nat :=
+  match tok with
+  | some t => if t.startsWith (key ++ "=") then (t.drop (key.length + 1)).toString.toNat? else none
+  | none => none
 
-def main (_args : List String) : IO UInt32 := loopMon ({} : S) step
+def parseAns (toks : List String) : Ans :=
+  match toks with
+  | [] => {}
+  | h :: _ =>
+    { head := parseHead h
+      ntoks := toks.length
+      rf := natField toks "rf"
+      id := match field toks "id" with
+        | none => .absent
+        | some "none" => .none_
+        | some x => match x.toNat? with | some e => .val e | none => .bad
+      ran := (field toks "ran").map parseIds
+      live := numOf "live" toks[1]?
+      leaked := numOf "leaked" toks[2]? }
+
+def step (s : MState) (op ans : List String) : MState × String :=
+  match Af.parseOp op with
+  | none => (s, "bad op")
+  | some o =>
+    let r := monStep s o (parseAns ans)
+    (r.1, match r.2 with | none => "ok" | some why => "bad " ++ why)
+
+def main (_args : List String) : IO UInt32 := loopMon ({} : MState) step
 
 end Percival.Driver.Afmon
